@@ -4,7 +4,7 @@ import Cfdm.Lemmas.GroupsPlace
 C11 — hierarchical groups change the file layout, never the meaning.
 Property theorems only.  The un-suffixed model functions are the code after the proposed
 patches (fixes/C11-*.patch); the code as it stands (`resolveOld`, `searchRelOld`, `dfs`,
-`flatNameOld`, `dictOfPairs`) is refuted by the `…_counterexample` theorems.
+`flatNameOld`, `dictOfPairs`, `varWrittenOld`, `findCoordVarOld`) is refuted by the `…_counterexample` theorems.
 
 Names are `List Char`; `NoSlash c` (no `/` inside — netCDF forbids it) is the only
 hypothesis on names, except for the injectivity of flattened names, which needs
@@ -199,6 +199,40 @@ theorem C11_old_lateral_counterexample :
     ∧ Occ root.kids ["c".toList] { name := "c".toList, vars := [lat] } := by
   refine ⟨by decide, by decide, ?_⟩
   exact Occ.next Occ.here
+
+/-- **The coordinate variable of a dimension** (`_find_coordinate_variable`, patched).  For a
+data variable in group `fg`, a dimension defined in the enclosing group `dg`, and the groups
+`cs` of the same-named variables that span exactly that dimension (pairwise different, the one
+in the dimension's own group flagged by `apexVar`): the reader's choice is the CF 2.7.1
+designation — the candidate nearest to the data variable among its group and its ancestors down
+to the local apex; only if there is none, the candidate below the apex that is strictly nearest
+to it — and it finds nothing exactly when nothing is designated (no candidate, or a tie in the
+lateral search). -/
+theorem C11_coordinate_variable_sound (apexVar : Bool) (fg dg : Path) (cs : List Path)
+    (hnd : cs.Nodup) (hapex : apexVar = true → dg ∈ cs) :
+    (∀ q, findCoordVar apexVar fg dg cs = some q → Designated fg dg cs q) ∧
+    (findCoordVar apexVar fg dg cs = none → ∀ q, ¬ Designated fg dg cs q) :=
+  findCoordVar_spec apexVar fg dg cs hnd hapex
+
+-- dimension in the root, candidates /g1 and /g1/g2, data variable in /g1/g2/g3: the deeper one
+example : findCoordVar false ["g1".toList, "g2".toList, "g3".toList] []
+    [["g1".toList], ["g1".toList, "g2".toList]] = some ["g1".toList, "g2".toList] := by decide
+-- lateral: only candidates beside the data variable; the shallower one
+example : findCoordVar false ["a".toList] [] [["b".toList, "c".toList], ["c".toList]] = some ["c".toList] := by decide
+-- lateral tie
+example : findCoordVar false ["a".toList] [] [["b".toList], ["c".toList]] = none := by decide
+
+/-- The reader as it stands lets a variable in the dimension's own group win even when a
+same-named variable spanning the dimension is nearer to the data variable. -/
+theorem C11_old_coordinate_variable_counterexample :
+    findCoordVarOld true ["g1".toList] [] [[], ["g1".toList]] = some []
+    ∧ findCoordVar true ["g1".toList] [] [[], ["g1".toList]] = some ["g1".toList]
+    ∧ ¬ Designated ["g1".toList] [] [[], ["g1".toList]] [] := by
+  refine ⟨by decide, by decide, ?_⟩
+  rintro ⟨_, h | h⟩
+  · have := h.2 ["g1".toList] ⟨by simp, List.nil_prefix⟩ (List.prefix_refl _)
+    simp at this
+  · exact h.1 [] ⟨by simp, List.nil_prefix⟩ List.nil_prefix
 
 /-! ## flattened names -/
 
@@ -563,25 +597,45 @@ example : (recordLayout exLayout).vars = exLayout.vars ∧ (recordLayout exLayou
 
 /-! ## group attributes -/
 
-/-- **Group attributes never change the meaning** (patched writer).  For every set of
-properties and every `nc_group_attributes()` dictionary — `None` values, values equal to the
-property, values *different* from the property, names that are not properties — the field read
-back from the grouped file (variable attributes take precedence over group attributes) has
-exactly the original properties. -/
-theorem C11_group_attributes_meaning (P : List (Name × Name)) (GA : List (Name × Option Name)) (a : Name) :
-    readProp (groupWritten P GA) (varWritten P GA) a = alookup P a := by
-  unfold readProp varWritten
-  rw [alookup_filter P (fun k => alookup GA k != some none) a, alookup_groupWritten]
-  cases hg : alookup GA a with
-  | none => cases hp : alookup P a <;> simp
-  | some v =>
-    cases v with
-    | none => cases hp : alookup P a <;> simp
-    | some gv => cases hp : alookup P a <;> simp
+/-- **Group attributes never change the meaning** (patched writer), at every depth.  For every
+group path of the data variable — the root group (depth 0) included —, every set `G` of global
+(description-of-file-contents) attribute names, every set of properties and every
+`nc_group_attributes()` dictionary (`None` values, values equal to the property, values
+*different* from the property, names that are not properties): what the writer puts in the
+global, group and variable attributes is read back (variable over group over global) as exactly
+the original properties. -/
+theorem C11_group_attributes_meaning (fieldGrp : Path) (G : List Name) (P : List (Name × Name))
+    (GA : List (Name × Option Name)) (a : Name) :
+    readProp3 (writeProps fieldGrp G P GA) a = alookup P a :=
+  readProp3_writeProps fieldGrp G P GA a
 
-example : readProp (groupWritten [("foo".toList, "baz".toList)] [("foo".toList, some "bar".toList)])
-    (varWritten [("foo".toList, "baz".toList)] [("foo".toList, some "bar".toList)]) "foo".toList = some "baz".toList := by
+example : readProp3 (writeProps ["forecast".toList] ["comment".toList]
+    [("foo".toList, "baz".toList), ("comment".toList, "c".toList)]
+    [("foo".toList, some "bar".toList), ("comment".toList, some "other".toList)]) "comment".toList = some "c".toList := by
   decide
+
+/-- **Depth 0.**  A field whose data variable is in the root group writes no group attributes,
+so a recorded `nc_group_attributes()` must not take anything off the variable: every property
+that is not a global attribute stays a variable attribute, whatever the dictionary says. -/
+theorem C11_group_attributes_root (G : List Name) (P : List (Name × Name)) (GA : List (Name × Option Name)) :
+    (writeProps [] G P GA).grp = [] ∧
+    (writeProps [] G P GA).var = P.filter (fun kv => !G.contains kv.1) ∧
+    ∀ a, a ∉ G → alookup (writeProps [] G P GA).var a = alookup P a := by
+  refine ⟨rfl, rfl, ?_⟩
+  intro a ha
+  have h := alookup_filter P (fun k => !G.contains k) a
+  have : (writeProps [] G P GA).var = P.filter (fun kv => (fun k => !G.contains k) kv.1) := rfl
+  rw [this, h]
+  simp [ha]
+
+/-- Were the omission applied at depth 0 as well (group attributes are not written there), the
+property would be in no attribute at all. -/
+example : readProp3 ⟨[], [], List.filter (fun kv => !omitted ["g".toList] [] [("project".toList, none)] kv.1)
+      [("project".toList, "p".toList)]⟩ "project".toList = none := by
+  decide
+
+example : readProp3 (writeProps [] [] [("project".toList, "p".toList)] [("project".toList, none)]) "project".toList
+    = some "p".toList := by decide
 
 /-- The writer as it stands drops the property from the data variable even when the group
 attribute has another value: the field comes back with the group's value. -/
